@@ -1,12 +1,17 @@
 package aclp
 
 import (
+	"errors"
 	"fmt"
+	"path/filepath"
 	"sync"
 	"sync/atomic"
 	"testing"
 
 	"github.com/tailscale/setec/acl"
+	"github.com/tailscale/setec/audit"
+	"github.com/tailscale/setec/db"
+	"verifharness/dbx"
 	"pgregory.net/rapid"
 	"verifharness/h"
 	"verifharness/model"
@@ -150,3 +155,88 @@ func TestC07Revisit(t *testing.T)  { revisitCampaign.Check(t) }
 func TestC07Parallel(t *testing.T) { parallelCampaign.Check(t) }
 
 var parNonce atomic.Int64
+
+// ---- C07: ONE rule-set value is asked many questions; and the same decisions through the database -----
+//
+// A program (or a server that keeps a node's grants around) evaluates the same acl.Rules value for
+// different actions and names, in any order: every answer equals the model's, the answer to a
+// question does not depend on what was asked before.  The second
+// half asks the database layer the same questions (read operations as a caller holding exactly those
+// rules): "refused" there must coincide with the model's "not allowed" - names are opaque strings on
+// that path too ('/', '.', "..", doubled slashes mean nothing).
+
+type Ask struct {
+	Action string `json:"action"`
+	Name   string `json:"name"`
+}
+
+type ManyAsksCase struct {
+	Rules []RuleM `json:"rules"`
+	Asks  []Ask   `json:"asks"`
+}
+
+func runManyAsks(t *testing.T, c ManyAsksCase) (*h.Violation, h.Info) {
+	var info h.Info
+	rules := toACL(c.Rules)
+	acts := map[string]bool{}
+	for i, a := range c.Asks {
+		acts[a.Action] = true
+		want := modelAllow(c.Rules, a.Action, a.Name)
+		var got bool
+		if v := h.Safely(func() *h.Violation { got = rules.Allow(acl.Action(a.Action), a.Name); return nil }); v != nil {
+			return h.V("evaluation-never-panics", "question %d (%q,%q): %s", i, a.Action, a.Name, v.Detail), info
+		}
+		if got != want {
+			return h.V("rules-allow", "one rule-set value %+v is asked %d questions in a row; question %d, Allow(%q,%q), is answered %v, the model says %v (questions before it: %+v)", c.Rules, len(c.Asks), i, a.Action, a.Name, got, want, c.Asks[:i]), info
+		}
+	}
+	info.NonTrivial = len(c.Rules) >= 2 && len(acts) >= 2
+	// the same questions to the database layer
+	d, err := dbx.OpenDiscard(filepath.Join(h.Scratch(t), "db"), dbx.DummyKey())
+	if err != nil {
+		return h.V("harness", "open: %v", err), info
+	}
+	caller := db.Caller{Principal: audit.Principal{User: "asker@example.com", Hostname: "asker"}, Permissions: toACL(c.Rules)}
+	for i, a := range c.Asks {
+		if a.Name == "" {
+			continue
+		}
+		var err error
+		switch a.Action {
+		case "get":
+			_, err = d.Get(caller, a.Name)
+		case "info":
+			_, err = d.Info(caller, a.Name)
+		case "delete":
+			err = d.Delete(caller, a.Name) // (of a secret that does not exist: allowed means "nothing to do")
+		default:
+			continue
+		}
+		refused := errors.Is(err, db.ErrAccessDenied)
+		if want := modelAllow(c.Rules, a.Action, a.Name); refused == want {
+			return h.V("rules-allow", "through the database API: question %d, %s on %q as a caller holding %+v, is refused=%v (%v); the model says allowed=%v", i, a.Action, a.Name, c.Rules, refused, err, want), info
+		}
+		info.Class("asked-through-the-database-api")
+	}
+	return nil, info
+}
+
+var manyAsks = &h.Campaign[ManyAsksCase]{
+	Prop: "C07", Sub: "one-rule-set-many-questions",
+	Rule: "rapid: a rule set of 1-4 generated rules, built ONCE, is asked 2-12 generated (action, name) questions in a row - names include spellings a path cleaner would alter (dev/../prod/a, dev//a, dev/a/, ./a); every answer equals the model's whatever was asked before; then the read/delete questions are put to a database as a caller holding those rules: refused exactly when the model does not allow; non-trivial = at least two rules and two different actions asked; distinct by scenario",
+	Quick: 3000, Thorough: 400000,
+	Gen: func(rt *rapid.T) ManyAsksCase {
+		names := append(append([]string{}, namePool...), "dev/../prod/a", "dev//a", "dev/a/", "./a", "prod/a/..", "dev/./a", "Dev/a")
+		return ManyAsksCase{
+			Rules: rapid.SliceOfN(rapid.Custom(genRule), 1, 4).Draw(rt, "rules"),
+			Asks: rapid.SliceOfN(rapid.Custom(func(rt *rapid.T) Ask {
+				return Ask{Action: rapid.SampledFrom([]string{"get", "info", "put", "activate", "delete", "get", "info"}).Draw(rt, "action"), Name: rapid.SampledFrom(names).Draw(rt, "name")}
+			}), 2, 12).Draw(rt, "asks"),
+		}
+	},
+	Run: runManyAsks,
+}
+
+func init() { manyAsks.Register() }
+
+func TestC07OneRuleSetManyQuestions(t *testing.T) { manyAsks.Check(t) }
